@@ -37,7 +37,8 @@ def forbiddenShapes : List String :=
    "internal_factory_raw_fn", "tagged_ctor_raw_ptr", "tainted_raw_value_ref_write", "tvol_sandbox_value_ref_write",
    "tvol_default_ctor", "tvol_copy_ctor", "tainted_reinterpret_from_raw",
    "reinterpret_cast_int_to_ptr", "reinterpret_cast_tvol_int_to_ptr", "static_cast_int_to_ptr", "const_cast_int_to_ptr",
-   "tainted_ptr_init_from_tainted_int"]
+   "tainted_ptr_init_from_tainted_int",
+   "tainted_int_plus_plain_ptr", "tvol_int_plus_plain_ptr", "plain_ptr_plus_tainted_int", "plain_ptr_minus_tainted_int"]
 
 def accepts (name : String) : Option Bool := (sinks.find? fun r => r.1 == name).map fun r => r.2.2
 
